@@ -662,14 +662,30 @@ pub fn reset() {
     }
 }
 
+/// `fixed[c * K_EV + i]`: 255 = the event kind is symbolic; otherwise the kind is this constant
+/// (the symbolic byte is still drawn, and assumed equal, so the playback layout is the same).
+/// Constant kinds keep the control flow of a long multipart drain concrete.
+pub const SCRIPT_SYMBOLIC: [u8; K_EV * K_CALLS] = [255; K_EV * K_CALLS];
+
 pub fn draw_script(faulty: bool) {
+    draw_script_fixed(faulty, SCRIPT_SYMBOLIC)
+}
+
+pub fn draw_script_fixed(faulty: bool, fixed: [u8; K_EV * K_CALLS]) {
     let mut c = 0;
     while c < K_CALLS {
         let mut i = 0;
         while i < K_EV {
-            let kind: u8 = kani::any();
+            let kind_sym: u8 = kani::any();
             let n: u64 = kani::any();
-            kani::assume(kind < 4);
+            kani::assume(kind_sym < 4);
+            let f = fixed[c * K_EV + i];
+            let kind = if f == 255 {
+                kind_sym
+            } else {
+                kani::assume(kind_sym == f);
+                f
+            };
             unsafe {
                 SCRIPTS[c][i] = Ev { kind, n };
             }
